@@ -103,7 +103,7 @@ func ndRunGated(b *ndBehaviour, backend string) (*ndMismatch, int, map[string]in
 			f = &ndFail{Kind: "panic", Msg: perr.Error()}
 		}
 		if f != nil {
-			return &ndMismatch{Backend: backend, Step: i, Fail: f, Steps: b.Steps[:i+1], Shape: ndShape(b, i), SharedKV: ndSharesKV(b, i)}, nReads, gates
+			return &ndMismatch{Backend: backend, Step: i, Fail: f, Steps: b.Steps[:i+1], Shape: ndShape(b, i), SharedKV: ndSharedFor(b, i, f), Origin: ndOrigin(b, i, f.Root)}, nReads, gates
 		}
 	}
 	return nil, nReads, gates
